@@ -4,7 +4,7 @@ from __future__ import annotations
 
 import random
 
-from harness.common import Ctx, byte_obligation, mi, read_scenario
+from harness.common import Ctx, byte_obligation, io_cases, mi, read_scenario
 from oracles import vmdk as spec
 from oracles.mem import Shifted, SymMem, SymOpaque
 from symx import core, files, layouts, loader, replay, stubs
@@ -188,6 +188,7 @@ def read_task(prop, cfg, tier, seed):
             opaque=("parent",) if has_parent else (), sizes=dict(img=lambda mo: mi(mo, fsize)),
             prefer=[cap <= 1 << 34, count * S <= 16 << 20] + ([vars_["gd_sectors"] <= 4096] if kind == "sesparse" else []),
             post_files=post_files)
+        ctx.scenario.wide = [sector >= 1 << 32, gd_off * S >= 1 << 40]
         if via == "disk":
             disk = m.SparseDisk(fh, parent=ParentDisk() if has_parent else None, offset=so * S, sector_offset=so)
             size_ok = disk.size == cap * S
@@ -212,6 +213,12 @@ def read_task(prop, cfg, tier, seed):
                     sc.extra.append(core.sym_or(a + n2 <= off, a >= off + ln))
         sv = gbyte(sector * S + j, mem, par, fsize)
         bad = byte_obligation(res, j, explen, sv, extra=[core.sym_not(size_ok)], maxlen=count * S if cfg.get("tail") else None)
+        if cfg.get("io"):
+            ng = (maxcount + gs - 1) // gs + 1
+            esz = 8 if kind == "sesparse" else 4
+            gtn = (gt_sectors * S // 8) if kind == "sesparse" else ngte
+            gd_bytes = (vars_["gd_sectors"] * S) if kind == "sesparse" else esz * gd_n
+            bad += io_cases(fh.reads, 16 + 2 * 512 + gd_bytes + ng * (esz * gtn + (gs + 2) * S) + count * S, 8 + 4 * ng)
         if ctx.obligation(bad, "read differs from the guest-visible content"):
             ctx.witness()
 
